@@ -113,8 +113,8 @@ func instrWriteKeys(blocks []*ssa.BasicBlock, only map[*ssa.BasicBlock]bool, see
 				if rootAlloc(x.Addr) != nil {
 					continue
 				}
-				if freshBase(x.Addr, map[ssa.Value]bool{}) {
-					continue // a store into memory this very function allocated: invisible to the caller's state
+				if freshBaseIn(x.Addr, map[ssa.Value]bool{}, only) {
+					continue // a store into memory allocated by this function (for a loop frame: inside the loop body)
 				}
 				if os.Getenv("GOVC_DEBUG") != "" {
 					fmt.Fprintf(os.Stderr, "  store key in %s: %s at %s\n", b.Parent().Name(), x.String(), b.Parent().Prog.Fset.Position(x.Pos()))
@@ -164,14 +164,14 @@ func instrWriteKeys(blocks []*ssa.BasicBlock, only map[*ssa.BasicBlock]bool, see
 					switch g.Name() {
 					case "append":
 						out["$frontier"] = true
-						if freshBase(x.Call.Args[0], map[ssa.Value]bool{}) {
+						if freshBaseIn(x.Call.Args[0], map[ssa.Value]bool{}, only) {
 							continue // in-place growth of a slice this function allocated
 						}
 						if sl, ok := x.Type().Underlying().(*types.Slice); ok {
 							out["A|"+typeKey(sl.Elem())+"|"] = true
 						}
 					case "copy":
-						if freshBase(x.Call.Args[0], map[ssa.Value]bool{}) {
+						if freshBaseIn(x.Call.Args[0], map[ssa.Value]bool{}, only) {
 							continue
 						}
 						if sl, ok := x.Call.Args[0].Type().Underlying().(*types.Slice); ok {
@@ -465,25 +465,29 @@ func (e *Exec) streamRun(fr *Frame, st *BState, x *ssa.Call) SV {
 // freshBase: the memory v denotes (a slice, or an address into one / into an object) was allocated by the function
 // v belongs to: a make / composite literal / new, a slice or element of such, an append to such, or a local variable
 // that is only ever assigned such values.
-func freshBase(v ssa.Value, seen map[ssa.Value]bool) bool {
+func freshBase(v ssa.Value, seen map[ssa.Value]bool) bool { return freshBaseIn(v, seen, nil) }
+
+// freshBaseIn: as freshBase, and (for loop frames) the allocation itself happens inside the given set of blocks, so
+// the memory is new in every iteration.
+func freshBaseIn(v ssa.Value, seen map[ssa.Value]bool, body map[*ssa.BasicBlock]bool) bool {
 	if seen[v] {
 		return true // cycle through a loop-carried variable: decided by the other assignments
 	}
 	seen[v] = true
 	switch x := v.(type) {
 	case *ssa.MakeSlice:
-		return true
+		return body == nil || body[x.Block()]
 	case *ssa.Alloc:
-		return x.Heap
+		return x.Heap && (body == nil || body[x.Block()])
 	case *ssa.Slice:
-		return freshBase(x.X, seen)
+		return freshBaseIn(x.X, seen, body)
 	case *ssa.IndexAddr:
-		return freshBase(x.X, seen)
+		return freshBaseIn(x.X, seen, body)
 	case *ssa.FieldAddr:
-		return freshBase(x.X, seen)
+		return freshBaseIn(x.X, seen, body)
 	case *ssa.Call:
 		if b, ok := x.Call.Value.(*ssa.Builtin); ok && b.Name() == "append" {
-			return freshBase(x.Call.Args[0], seen)
+			return freshBaseIn(x.Call.Args[0], seen, body)
 		}
 		return false
 	case *ssa.UnOp:
@@ -527,7 +531,7 @@ func freshBase(v ssa.Value, seen map[ssa.Value]bool) bool {
 				if c, isConst := stv.Val.(*ssa.Const); isConst && c.Value == nil {
 					continue // nil
 				}
-				if !freshBase(stv.Val, seen) {
+				if !freshBaseIn(stv.Val, seen, body) {
 					return false
 				}
 			}
